@@ -351,7 +351,7 @@ Proof.
   - lia.
   - lia.
   - lia.
-  - intro Hch. destruct (runtimeRouteChanged_trans _ _ _ Hch) as [H|H].
+  - intro Hch. destruct (runtimeRouteChanged_trans a b c Hch) as [H|H].
     + destruct (Hst1 H) as [Hlt|Heq]; [left; lia|right; exact Heq].
     + destruct (Hst2 H) as [Hlt|Heq]; [left; lia|].
       destruct (N.eq_dec (rm_route_generation a) u64max) as [Ha|Ha]; [right; exact Ha|left; lia].
@@ -489,7 +489,7 @@ Proof.
   destruct Hk as (Kid & Kty & Kce & Kle & Kld & Kls & Krt & Kwf).
   set (had := negb (rm_route_generation c =? 0)).
   destruct (had && (rm_route_generation c' <? rm_route_generation ex)) eqn:Hstale.
-  { intro H. inversion H. symmetry in H2. contradiction. }
+  { intro H. apply (f_equal snd) in H. cbn [snd] in H. congruence. }
   assert (Hhad : had = true -> rm_route_generation ex <= rm_route_generation c').
   { intro Hh. rewrite Hh in Hstale. cbn [andb] in Hstale. apply N.ltb_ge in Hstale. exact Hstale. }
   (* common tail: next = bump ex (preserve ex c2) had, where c2 agrees with c' except the lease *)
@@ -540,21 +540,21 @@ Proof.
     - rewrite Bshape. rm_cbn. congruence.
     - rewrite Bshape. rm_cbn. congruence. }
   destruct (rm_channel_epoch c' <? rm_channel_epoch ex) eqn:H1.
-  { intro H. inversion H. symmetry in H2. contradiction. }
+  { intro H. apply (f_equal snd) in H. cbn [snd] in H. congruence. }
   apply N.ltb_ge in H1.
   destruct (rm_channel_epoch ex <? rm_channel_epoch c') eqn:H2.
   { apply N.ltb_lt in H2. intro H. inversion H. subst next.
     apply Tail; try reflexivity; [left; exact H2|intros; lia]. }
   apply N.ltb_ge in H2.
   destruct (rm_leader_epoch c' <? rm_leader_epoch ex) eqn:H3.
-  { intro H. inversion H. symmetry in H4. contradiction. }
+  { intro H. apply (f_equal snd) in H. cbn [snd] in H. congruence. }
   apply N.ltb_ge in H3.
   destruct (rm_leader_epoch ex <? rm_leader_epoch c') eqn:H4.
   { apply N.ltb_lt in H4. intro H. inversion H. subst next.
     apply Tail; try reflexivity; [right; lia|intros; lia]. }
   apply N.ltb_ge in H4.
   destruct (negb (rm_leader c' =? rm_leader ex)) eqn:H5.
-  { intro H. inversion H. symmetry in H6. contradiction. }
+  { intro H. apply (f_equal snd) in H. cbn [snd] in H. congruence. }
   apply negb_false_iff in H5. apply N.eqb_eq in H5.
   intro H. inversion H. subst next.
   destruct (rm_lease_until_ms c' <? rm_lease_until_ms ex)%Z eqn:H6.
@@ -573,16 +573,16 @@ Lemma advanceRetentionRow_advances ex req :
   rm_retention_through_seq ex < ra_retention_through_seq req ->
   advances ex (advanceRetentionRow ex req) /\ rm_normalized (advanceRetentionRow ex req).
 Proof.
-  intros (Nr & Ni & Ng & Nd) Hlt. unfold advanceRetentionRow. split.
-  - constructor; rm_cbn; try lia.
+  intros (Nr & Ni & Ng & Nd) Hlt. unfold advanceRetentionRow.
+  pose proof (nextChannelRouteGeneration_spec (rm_route_generation ex)) as Hn.
+  split.
+  - constructor; rm_cbn.
     + right. split; [reflexivity|lia].
     + intros _ _. split; [reflexivity|lia].
-    + destruct (nextChannelRouteGeneration_spec (rm_route_generation ex)) as [[H1 H2]|[H1 H2]];
-        rewrite H2; lia.
-    + intros _.
-      destruct (nextChannelRouteGeneration_spec (rm_route_generation ex)) as [[H1 H2]|[H1 H2]];
-        rewrite H2; [left; lia|right; exact H1].
+    + lia.
+    + lia.
+    + destruct Hn as [[H1 H2]|[H1 H2]]; rewrite H2; lia.
+    + intros _. destruct Hn as [[H1 H2]|[H1 H2]]; rewrite H2; [left; lia|right; exact H1].
   - unfold rm_normalized. rm_cbn. repeat split; try assumption.
-    destruct (nextChannelRouteGeneration_spec (rm_route_generation ex)) as [[H1 H2]|[H1 H2]];
-      rewrite H2; lia.
+    destruct Hn as [[H1 H2]|[H1 H2]]; rewrite H2; lia.
 Qed.
